@@ -592,7 +592,19 @@ def run_tie(prop, spec, tier, seed):
         exp.append(expected(c, r))
         for b, n in r.branch.items():
             branches[b] = branches.get(b, 0) + n
-    impl = seqtie.run_stream(binary, cases, "rt reset", timeout=900 if tier == "quick" else 3000)
+    # the implementation runs in chunks: a broken tree (hundreds of sanitizer aborts, each restarting the stream) is
+    # reported after the first chunks instead of being driven through every case
+    impl, bad_cases, chunk = [], 0, 500
+    for i in range(0, len(cases), chunk):
+        part = seqtie.run_stream(binary, cases[i:i + chunk], "rt reset", timeout=900 if tier == "quick" else 3000)
+        impl.extend(part)
+        bad_cases += sum(1 for c, e, o in zip(cases[i:i + chunk], exp[i:i + chunk], part)
+                         if projected(prop, c, e) != projected(prop, c, o))
+        if bad_cases >= 60:
+            break
+    if len(impl) < len(cases):
+        res.extra["stopped_early_after_cases"] = len(impl)
+        cases, exp = cases[:len(impl)], exp[:len(impl)]
     model_raw = seqtie.run_stream(None, [with_dump(c) for c in cases], "rt reset", is_driver=True, timeout=3000)
     model = [raw[1::2] for raw in model_raw]
     dumps = [raw[0::2] for raw in model_raw]
